@@ -77,6 +77,13 @@ CHECKS = {
             "(type, source-only, target-only, extra filters, id or object argument, self-loops, hyphenated types) are validated line by line by TLC.",
             "Trusted: reference = de-duplicated union keyed by (id, modified); get under attached filters may answer nothing (documented deviation).",
             "DESIGN.md §3.6"),
+    "C06": ("detid", "TLA+ spec of the contributing view, hash choice and RFC 8785 preimage (on CanonJson.tla); TLC checks permutation/non-contributing invariance and contributing sensitivity; TLC computes the preimage of every generated observable, the harness applies UUIDv5 and compares with the library's id along several creation routes",
+            "TLC checks on spec/DetId.tla that re-ordering and non-contributing edits keep the preimage and contributing edits change it, and evaluates View/ChooseHash/Canon for every observable the "
+            "harness generates (all 18 built-in 2.1 observable types and a registered custom observable, random subsets of contributing and non-contributing properties, falsy values, escapes, "
+            "nested extensions with floats, hash dictionaries in every order). The id must equal type--uuid5(namespace, that preimage) via keyword arguments, parsed JSON in shuffled order, "
+            "after a round trip, after non-contributing changes, and across processes; with nothing contributing it must be a fresh UUIDv4.",
+            "Trusted: SHA-1/UUIDv5 from hashlib/uuid; contributing lists transcribed from the STIX 2.1 text; floats tagged through Python's shortest repr.",
+            "DESIGN.md §3.3"),
 }
 
 NOT_YET = {}
